@@ -68,6 +68,8 @@ def all_configs():
         for n in INDICES:
             for fno in FNOS:
                 out.append(("hyperbolic_lens", (R, n[0], n[1], fno)))
+                if fno == FNOS[0]:
+                    out.append(("touching_stop_hyperbolic", (R, n[0], n[1], fno)))
                 out.append(("elliptic_front", (R, n[0], n[1], fno)))
             for n2 in INDICES:
                 for fno in (0.7, 2.0):
